@@ -459,57 +459,55 @@ def state_writes(prj: Project, fi: FuncInfo):
 
 
 def _input_deps(prj, fi: FuncInfo, e, depth=0, seen=None) -> set:
-    """the inputs of fi that the value of expression e is computed from: parameter names, 'self.<attr>' for attributes of the
-    receiver, '*' when something cannot be traced.  Locals are followed through all their definitions."""
+    """the inputs of fi that the value of expression e is computed from, as access paths: 'p' for a parameter used as a whole,
+    'p.attr' / 'p.method()' for what is read from it (also for the receiver), '*' when something cannot be traced.  Locals are
+    followed through all their definitions, including what decides whether a definition happens."""
     from ..core import local_defs
     seen = seen if seen is not None else set()
     if e is None or depth > 8:
         return {"*"} if depth > 8 else set()
     params = set(fi.params())
-    me = fi.params()[0] if fi.is_method() and not fi.is_static() and fi.params() else None
     out = set()
-    skip = set()
     for n in ast.walk(e):
-        if isinstance(n, ast.Attribute) and isinstance(n.value, ast.Name) and n.value.id == me and me is not None:
-            par = fi.parents.get(n)
-            if isinstance(par, ast.Call) and par.func is n:
-                out.add(f"{me}.*")          # a method of the receiver: may read any of its attributes
-            else:
-                out.add(f"{me}.{n.attr}")
-            skip.add(id(n.value))
-    for n in ast.walk(e):
-        if isinstance(n, ast.Name) and isinstance(n.ctx, ast.Load) and id(n) not in skip:
-            if n.id == me:
-                out.add(f"{me}.*")
-            elif n.id in params:
-                out.add(n.id)
-            elif (fi.qual, n.id) in seen:
-                continue
-            else:
-                defs = local_defs(fi, n.id)
-                if defs:
-                    seen.add((fi.qual, n.id))
-                    for v, st in defs:
-                        if v is None:
-                            # not a plain assignment: what the binding draws from
-                            if isinstance(st, ast.AugAssign):
-                                v = st.value
-                            elif isinstance(st, (ast.For, ast.comprehension)):
-                                v = st.iter
-                            elif isinstance(st, ast.withitem):
-                                v = st.context_expr
-                            elif isinstance(st, ast.Assign):
-                                v = st.value
-                        out |= _input_deps(prj, fi, v, depth + 1, seen) if v is not None else {"*"}
-                        # what decides whether this binding happens at all
-                        q = fi.parents.get(st)
-                        while q is not None and not isinstance(q, (ast.FunctionDef, ast.AsyncFunctionDef, ast.Lambda)):
-                            if isinstance(q, (ast.If, ast.While, ast.IfExp)):
-                                out |= _input_deps(prj, fi, q.test, depth + 1, seen)
-                            elif isinstance(q, ast.For):
-                                out |= _input_deps(prj, fi, q.iter, depth + 1, seen)
-                            q = fi.parents.get(q)
-                # module-level names (constants, functions, classes) and builtins are not inputs of the call
+        if not (isinstance(n, ast.Name) and isinstance(n.ctx, ast.Load)):
+            continue
+        if n.id in params:
+            # the longest attribute chain that starts at the parameter
+            path, cur = n.id, n
+            par = fi.parents.get(cur)
+            while isinstance(par, ast.Attribute) and par.value is cur:
+                path += "." + par.attr
+                cur, par = par, fi.parents.get(par)
+            if isinstance(par, ast.Call) and par.func is cur and cur is not n:
+                path += "()"
+            out.add(path)
+        elif (fi.qual, n.id) in seen:
+            continue
+        else:
+            defs = local_defs(fi, n.id)
+            if defs:
+                seen.add((fi.qual, n.id))
+                for v, st in defs:
+                    if v is None:
+                        # not a plain assignment: what the binding draws from
+                        if isinstance(st, ast.AugAssign):
+                            v = st.value
+                        elif isinstance(st, (ast.For, ast.comprehension)):
+                            v = st.iter
+                        elif isinstance(st, ast.withitem):
+                            v = st.context_expr
+                        elif isinstance(st, ast.Assign):
+                            v = st.value
+                    out |= _input_deps(prj, fi, v, depth + 1, seen) if v is not None else {"*"}
+                    # what decides whether this binding happens at all
+                    q = fi.parents.get(st)
+                    while q is not None and not isinstance(q, (ast.FunctionDef, ast.AsyncFunctionDef, ast.Lambda)):
+                        if isinstance(q, (ast.If, ast.While, ast.IfExp)):
+                            out |= _input_deps(prj, fi, q.test, depth + 1, seen)
+                        elif isinstance(q, ast.For):
+                            out |= _input_deps(prj, fi, q.iter, depth + 1, seen)
+                        q = fi.parents.get(q)
+            # module-level names (constants, functions, classes) and builtins are not inputs of the call
     return out
 
 
@@ -525,12 +523,17 @@ def memo_verdict(prj, fi: FuncInfo, n):
     kd, vd = _input_deps(prj, fi, key), _input_deps(prj, fi, val)
     if "*" in vd and "*" not in kd:
         return "memo", {"(something that could not be traced)"}
-    me = fi.params()[0] if fi.is_method() and not fi.is_static() and fi.params() else None
     missing = set()
     for d in vd:
-        if d in kd or d == "*":
+        if d == "*":
             continue
-        if me and d.startswith(me + ".") and f"{me}.*" in kd:
+        # covered when the key holds the same access path, or the object it is read from as a whole
+        prefixes = [d]
+        base = d
+        while "." in base:
+            base = base.rsplit(".", 1)[0]
+            prefixes.append(base)
+        if any(p_ in kd for p_ in prefixes):
             continue
         missing.add(d)
     return "memo", missing
